@@ -566,7 +566,7 @@ func c11generate(c *core.Check) {
 	// lockstep
 	var loop *ast.RangeStmt
 	ast.Inspect(fd.Body, func(n ast.Node) bool {
-		if rs, ok := n.(*ast.RangeStmt); ok && rules.ExprString(rs.X) == "g.plugins" {
+		if rs, ok := n.(*ast.RangeStmt); ok && rules.ExprString(rs.X) == recvNameOf(fd, "g")+".plugins" {
 			loop = rs
 		}
 		return true
@@ -650,7 +650,7 @@ func c11generate(c *core.Check) {
 	for _, s := range pp.Body.List {
 		switch x := s.(type) {
 		case *ast.AssignStmt:
-			if len(x.Lhs) == 1 && rules.ExprString(x.Lhs[0]) == "g.plugins" && ploop == nil {
+			if len(x.Lhs) == 1 && rules.ExprString(x.Lhs[0]) == recvNameOf(pp, "g")+".plugins" && ploop == nil {
 				if rules.IsNil(info, x.Rhs[0]) || strings.HasSuffix(rules.ExprString(x.Rhs[0]), "[:0]") || strings.HasPrefix(rules.ExprString(x.Rhs[0]), "make(") {
 					reset = true
 				}
@@ -669,7 +669,7 @@ func c11generate(c *core.Check) {
 	if len(pp.Type.Params.List) == 2 && len(pp.Type.Params.List[1].Names) == 1 {
 		paramName = pp.Type.Params.List[1].Names[0].Name
 	}
-	counts := appendCounts(info, ploop.Body.List, "g.plugins")
+	counts := appendCounts(info, ploop.Body.List, recvNameOf(pp, "g")+".plugins")
 	okCount := rules.ExprString(ploop.X) == paramName && len(counts) > 0
 	for _, n := range counts {
 		if n != 1 {
